@@ -81,6 +81,10 @@ func (s *Supervisor) checkScan(rec *ScanRecord) {
 		gs.A = a
 		a.KnownStart = gs.KnownAtList
 		a.KnownEnd = knownAfter(gs)
+		if gs.ViewMoved {
+			a.Clean, a.CleanUp, a.CleanTaint = false, false, false
+			st.Probe("group listed twice in one turn with different answers")
+		}
 		if gs.KnownAmbiguous {
 			a.KnownEnd.Valid = false
 			a.Clean, a.CleanUp, a.CleanTaint = false, false, false
@@ -1289,9 +1293,19 @@ func (x *scanCtx) c10() {
 		e := gs.TList.Sub(ts)
 		if e > g.Hard || e > g.Soft && a.PodsOn[n.Name] == 0 {
 			eligible = append(eligible, n)
+			if gs.StaleNodes[n.Name] {
+				return // a code that reads the candidate again may see it changed: the batch is not computable
+			}
 		}
 	}
 	if len(eligible) == 0 {
+		return
+	}
+	if len(eligible) > 5 {
+		// "every eligible node goes in this scan" is not in any property: a cap on removals per scan is the
+		// code's business. What must not happen is that the annotation (or a foreign pod) is what holds a node
+		// back - judged where no realistic cap can be the reason.
+		x.s.stats.Probe("more than 5 eligible nodes (hold-back rules not applied)")
 		return
 	}
 	k := a.KnownStart
@@ -1455,14 +1469,14 @@ func (x *scanCtx) c12Targets() {
 		case OpTerminateASG:
 			if _, ok := a.ByInst[c.Target]; !ok {
 				bad = "instance backs no node of this group's view"
-			} else if k := gs.KnownAtList; k != nil && k.Valid {
+			} else if k := gs.KnownAtList; k != nil && k.Valid && !gs.KnownAmbiguous {
 				if _, member := k.Instances[c.Target]; !member {
 					// only a cross-group hit is judged here: the instance is a known member of ANOTHER group's ASG
 					for _, og := range x.s.cfg.Groups {
 						if og.ASG == g.ASG {
 							continue
 						}
-						if ok2 := x.s.w.known[og.ASG]; ok2 != nil && ok2.Valid {
+						if ok2 := x.s.w.known[og.ASG]; ok2 != nil && ok2.Valid && !ok2.Ambiguous {
 							if _, theirs := ok2.Instances[c.Target]; theirs {
 								bad = "instance is a member of another group's cloud group " + og.ASG + ", not of " + g.ASG
 							}
@@ -1616,9 +1630,9 @@ func (x *scanCtx) c15() {
 				return
 			}
 			sec, err := parseDecimal(t.Value)
-			lo := gs.TEnter // "current": not before this group's turn began, not after the write was sent
+			lo := x.rec.Start // "current": read in this scan, not after the write was sent
 			if err != nil || sec < lo.Unix() || sec > c.T0.Unix() {
-				x.viol("C15", "c15-add", "value", "", fmt.Sprintf("taint value %q is not the current Unix time (the group's turn began at %d, write sent at %d)", t.Value, lo.Unix(), c.T0.Unix()), c)
+				x.viol("C15", "c15-add", "value", "", fmt.Sprintf("taint value %q is not the current Unix time (the scan began at %d, write sent at %d)", t.Value, lo.Unix(), c.T0.Unix()), c)
 				return
 			}
 			if c.Stored != nil && hasTaintKey(c.Stored, escTaint) {
@@ -1879,22 +1893,21 @@ func (x *scanCtx) c19() {
 			return
 		}
 	}
-	// per class: deletes only after all terminates of the class, none if any failed
-	for _, phase := range []string{"force", "grace"} {
-		var terms, dels []*Call
-		for _, c := range gs.Calls {
-			if c.Phase != phase {
-				continue
-			}
-			if c.Op == OpTerminateASG {
+	// per removal request on the provider (its boundaries are recorded at the cloudprovider.NodeGroup seam):
+	// never more terminates than desired - min allows; a Node object goes only after a request that contained
+	// it returned without error, i.e. after the cloud accepted that entire batch
+	inReq := func(r *ProvReq, c *Call) bool { return c.Seq > r.Seq0 && (!r.Done || c.Seq <= r.Seq1) }
+	nDel := 0
+	for _, r := range gs.Reqs {
+		if r.Kind != "delete" {
+			continue
+		}
+		nDel++
+		var terms []*Call
+		for _, c := range a.Terminates {
+			if inReq(r, c) {
 				terms = append(terms, c)
 			}
-			if c.Op == OpDelete {
-				dels = append(dels, c)
-			}
-		}
-		if len(terms) == 0 && len(dels) == 0 {
-			continue
 		}
 		if len(terms) > 20 {
 			x.s.stats.Probe("reap batch of more than 20 nodes")
@@ -1903,128 +1916,122 @@ func (x *scanCtx) c19() {
 			k := terms[0].Known
 			if int64(len(terms)) > k.Desired-k.Min {
 				site := ""
-				if phase == "grace" && hasAckedForceTerminate(gs) {
+				if nDel > 1 && hasAckedTerminate(gs) {
 					site = "second-batch-in-scan"
 				}
-				x.viol("C19", "c19-count", "", site, fmt.Sprintf("%d terminate calls in the %s batch with known desired %d and min %d", len(terms), phase, k.Desired, k.Min), terms...)
+				x.viol("C19", "c19-count", "", site, fmt.Sprintf("%d terminate calls in one removal request with known desired %d and min %d", len(terms), k.Desired, k.Min), terms...)
 				return
 			}
 		}
-		failed := false
-		okTerm := map[string]bool{}
-		lastTerm := 0
-		for _, c := range terms {
-			if c.Err != "" {
-				failed = true
-			} else {
-				okTerm[a.ByInst[c.Target]] = true
-			}
-			if c.Seq > lastTerm {
-				lastTerm = c.Seq
+	}
+	if nDel > 1 {
+		x.s.stats.Probe("two removal batches in one scan")
+	}
+	okTerm := map[string]bool{}
+	for _, c := range a.Terminates {
+		if c.Err == "" {
+			okTerm[a.ByInst[c.Target]] = true
+		}
+	}
+	for _, d := range a.Deletes {
+		var req *ProvReq
+		for _, r := range gs.Reqs {
+			if r.Kind == "delete" && r.has(d.Target) && r.Seq0 < d.Seq {
+				req = r // the latest request before the DELETE that was given this node
 			}
 		}
-		for _, d := range dels {
-			if failed {
-				x.viol("C19", "c19-order", "delete-after-failure", "", fmt.Sprintf("DELETE %s although a terminate call of the same batch failed", d.Target), d)
-				return
-			}
-			if d.Seq < lastTerm {
-				x.viol("C19", "c19-order", "delete-before-terminate", "", fmt.Sprintf("DELETE %s issued before the cloud accepted the whole batch", d.Target), d)
-				return
-			}
-			if !okTerm[d.Target] {
-				x.viol("C19", "c19-order", "delete-without-terminate", "", fmt.Sprintf("DELETE %s with no acknowledged terminate of its instance", d.Target), d)
-				return
-			}
-		}
-		if len(terms) > 0 && len(dels) > 0 && phase == "grace" && hasAckedForceTerminate(gs) {
-			x.s.stats.Probe("two removal batches in one scan")
+		switch {
+		case req == nil:
+			x.viol("C19", "c19-order", "delete-without-terminate", "", fmt.Sprintf("DELETE %s although no removal request given to the cloud provider contained it", d.Target), d)
+			return
+		case !req.Done || d.Seq <= req.Seq1:
+			x.viol("C19", "c19-order", "delete-before-terminate", "", fmt.Sprintf("DELETE %s issued before the cloud accepted the whole batch", d.Target), d)
+			return
+		case req.Err != "":
+			x.viol("C19", "c19-order", "delete-after-failure", "", fmt.Sprintf("DELETE %s although the removal request that contained it failed (%s)", d.Target, trunc(req.Err, 60)), d)
+			return
+		case !okTerm[d.Target]:
+			x.viol("C19", "c19-order", "delete-without-terminate", "", fmt.Sprintf("DELETE %s with no acknowledged terminate of its instance", d.Target), d)
+			return
 		}
 	}
 }
 
-// c19Fatal: a reap batch that contains a node which is not a member of the
-// known ASG must stop the request with the not-in-group error, which makes
-// RunOnce return it. Judged only in scans without any injected fault, in the
-// calm regime (where the batch the reaper builds is exactly computable).
+// c19Fatal: a removal request handed to the provider that contains a node which is not a member of the
+// known ASG must stop with the not-in-group error, and that makes RunOnce return it (escalator exits rather
+// than continues). Judged on the requests as recorded at the cloudprovider.NodeGroup seam, so neither the
+// order the code works in, nor a cap on removals per scan, nor a re-read that drops a stale candidate matter.
 func (x *scanCtx) c19Fatal() {
-	a, gs, g := x.a, x.gs, x.g
-	if !x.rec.Calm || x.rec.FaultsFired > 0 || a.Locked || a.Kind != kNormal && a.Kind != kIdleZero && a.Kind != kFromZero || gs.WorldOps > 0 {
+	a, gs := x.a, x.gs
+	if x.rec.Outcome.Crash || x.rec.Outcome.Panic != "" || x.rec.Outcome.Exit {
 		return
 	}
-	if x.rec.Outcome.Crash || x.rec.Outcome.Panic != "" {
+	if gs.KnownAmbiguous || preFaulted(x.rec) {
 		return
 	}
-	k := gs.KnownAtList
-	if k == nil || !k.Valid {
-		return
-	}
-	member := func(n *v1.Node) bool {
-		pid, ok := k.Instances[instanceOf(n.Spec.ProviderID)]
-		return ok && pid == n.Spec.ProviderID
-	}
-	var batch []*v1.Node
-	for _, n := range gs.Nodes { // view order = batch order
-		if a.Class[n.Name] == clForce && a.PodsOn[n.Name] == 0 {
-			batch = append(batch, n)
+	for _, r := range gs.Reqs {
+		if r.Kind != "delete" || !r.Done {
+			continue
 		}
-	}
-	phase := "force"
-	if len(batch) == 0 {
-		// grace batch (not built when the scan scales up)
-		if a.Bands["up"] || a.StarveMay || a.AgeMay || a.Kind == kFromZero {
-			return
+		k := r.Known
+		if k == nil || !k.Valid {
+			continue
 		}
-		phase = "grace"
-		for _, n := range gs.Nodes {
-			if a.Class[n.Name] != clTainted || annotated(n) {
-				continue
-			}
-			ts, ok := stampOf(n)
+		member := func(n *v1.Node) bool {
+			pid, ok := k.Instances[instanceOf(n.Spec.ProviderID)]
+			return ok && pid == n.Spec.ProviderID
+		}
+		foreign := map[string]*v1.Node{}
+		first := ""
+		unknown := false
+		for _, name := range r.Nodes {
+			n, ok := a.Node[name]
 			if !ok {
+				unknown = true // not a node of the view: C01/C12 speak about that
 				continue
 			}
-			e := gs.TList.Sub(ts)
-			if e > g.Hard || e > g.Soft && a.PodsOn[n.Name] == 0 {
-				batch = append(batch, n)
+			if !member(n) {
+				foreign[name] = n
+				if first == "" {
+					first = name
+				}
 			}
 		}
-	}
-	if len(batch) == 0 || k.Desired <= k.Min || k.Desired-int64(len(batch)) < k.Min {
-		return
-	}
-	// which of several non-members is named, and how many members were terminated before the request reached
-	// it, depends on the order the batch is worked through - which is the code's business
-	foreign := map[string]*v1.Node{}
-	var first *v1.Node
-	for _, n := range batch {
-		if !member(n) {
-			foreign[n.Name] = n
-			if first == nil {
-				first = n
+		if first == "" || unknown {
+			continue
+		}
+		// DESIGN 4.3-3: exact outcomes need every call acknowledged, natural refusals included: a terminate the
+		// cloud refused ends the request with a plain error before the non-member is reached. A request refused
+		// as a whole at the ASG minimum never looks at its nodes either.
+		refused := false
+		nTerms := 0
+		for _, c := range a.Terminates {
+			if c.Seq > r.Seq0 && c.Seq <= r.Seq1 {
+				nTerms++
+				if c.Err != "" {
+					refused = true
+				}
 			}
 		}
-	}
-	if first == nil {
-		return
-	}
-	// DESIGN 4.3-3: exact outcomes need every call acknowledged, natural refusals included. If the cloud refused
-	// a terminate ahead of the non-member, DeleteNodes stopped there with a plain error and never reached it.
-	for _, c := range a.Terminates {
-		if c.Phase == phase && c.Err != "" {
+		if refused || k.Desired <= k.Min || k.Desired-int64(len(r.Nodes)) < k.Min {
+			continue
+		}
+		x.check("c19-fatal")
+		x.s.stats.Probe("removal request contains a non-member")
+		phase := ifs(a.Class[first] == clForce, "force", "grace")
+		if _, ok := foreign[r.NotInGroup]; !ok {
+			x.viol("C19", "c19-fatal", "request", phase, fmt.Sprintf("the removal request contains %s (%q) which is not a member of the known ASG: it must stop with the not-in-group error naming a non-member; it ended with err=%q (known desired %d min %d, %d nodes given)", first, foreign[first].Spec.ProviderID, r.Err, k.Desired, k.Min, len(r.Nodes)))
 			return
 		}
-	}
-	x.check("c19-fatal")
-	x.s.stats.Probe("reap batch contains a non-member (" + phase + ")")
-	if _, ok := foreign[x.rec.Outcome.NotInGroupNode]; !ok {
-		x.viol("C19", "c19-fatal", "", phase, fmt.Sprintf("the %s batch contains %s (%q) which is not a member of the known ASG: RunOnce must stop with the not-in-group error naming a non-member; it ended with err=%q (known desired %d min %d, batch %d)", phase, first.Name, first.Spec.ProviderID, x.rec.Outcome.Err, k.Desired, k.Min, len(batch)))
-		return
-	}
-	for _, c := range a.Terminates {
-		if n, ok := a.ByInst[c.Target]; ok && foreign[n] != nil {
-			x.viol("C19", "c19-fatal", "terminated", phase, fmt.Sprintf("the instance of the non-member %s was submitted for termination", n), c)
+		if _, ok := foreign[x.rec.Outcome.NotInGroupNode]; !ok {
+			x.viol("C19", "c19-fatal", "", phase, fmt.Sprintf("the removal request for %s ended with the not-in-group error, which must stop RunOnce; it ended with err=%q", r.NotInGroup, x.rec.Outcome.Err))
 			return
+		}
+		for _, c := range a.Terminates {
+			if n, ok := a.ByInst[c.Target]; ok && foreign[n] != nil && c.Seq > r.Seq0 && c.Seq <= r.Seq1 {
+				x.viol("C19", "c19-fatal", "terminated", phase, fmt.Sprintf("the instance of the non-member %s was submitted for termination", n), c)
+				return
+			}
 		}
 	}
 }
@@ -2150,7 +2157,7 @@ func (s *Supervisor) checkOutcome(rec *ScanRecord) {
 				}
 				if n, ok := gs.A.Node[o.NotInGroupNode]; ok {
 					k := gs.KnownAtList
-					if k == nil || !k.Valid {
+					if k == nil || !k.Valid || gs.KnownAmbiguous {
 						legit = true
 					} else if _, member := k.Instances[instanceOf(n.Spec.ProviderID)]; !member {
 						legit = true
@@ -2165,6 +2172,10 @@ func (s *Supervisor) checkOutcome(rec *ScanRecord) {
 				s.violate(Violation{Property: "C20", Rule: "c20-stop", Sub: "not-in-group", Scan: rec.Index, Life: rec.Life, Detail: "RunOnce stopped with not-in-group for " + o.NotInGroupNode + " although the node's instance is a member of the known ASG"})
 				s.violate(Violation{Property: "C19", Rule: "c19-foreign", Sub: "member-refused", Site: "controller", Scan: rec.Index, Life: rec.Life, Detail: "the removal request stopped with the not-in-group error for " + o.NotInGroupNode + " although its instance is a member of the known ASG (as of the last refresh answer)"})
 			}
+		case exitGroup != "" && s.fleetFailures[exitGroup] >= 3:
+			// the documented give-up after the third consecutive failed fleet scale-up, delivered as an error
+			// up the stack instead of an exit deep inside the provider: the property names the stop, not the mechanism
+			st.Probe("third consecutive fleet failure ends the lifetime (returned as an error)")
 		case badDescribes >= 2:
 			st.Probe("credential-refresh path gave up after repeated Describe failures")
 		default:
